@@ -321,6 +321,52 @@ def rt_sandwich(seed, n):
     return out
 
 
+def h_qmdp_action_value_U():
+    """QMDPPolicy.action_value(b, a) == sum_i Qtab(state(i), a) * prob(i) for a belief of UNBOUNDED support (loop cut, recursive ghost sum, uninterpreted table)"""
+    import z3, os
+    from symrun.absx import Atom, rsum, fresh_atom, Opaque
+    from symrun.driver import ROOT
+    I, Rl = z3.IntSort(), z3.RealSort()
+    key, val, Q = z3.Function('bstate', I, I), z3.Function('bprob', I, Rl), z3.Function('Qtab', I, I, Rl)
+    n = z3.Int('n')
+    S.cur().inputs['n'] = n
+    S.assume(S.SymBool(n >= 0))
+    a = fresh_atom('a')
+    Ssum = rsum('qmdpsum', lambda i: Q(key(i), a.e) * val(i))
+
+    class Row:
+        def __init__(self, s): self.s = s
+        def __getitem__(self, act): return S.SymReal(Q(self.s.e, act.e))
+
+    class Tab:
+        def __getitem__(self, s): return Row(s)
+    policy = qm.QMDPPolicy.__new__(qm.QMDPPolicy)
+    policy.sa_values = Tab()
+    ghost, state = {}, {'phase': 'head'}
+
+    def inv(L):
+        if 'kz' not in ghost:
+            return S.eq(L['aval'], 0)
+        kk = ghost['kz'] + (1 if state['phase'] == 'back' else 0)
+        return S.eq(L['aval'], S.SymReal(Ssum(kk)))
+
+    def havoc(L):
+        kz = z3.Int('ghost_k')
+        S.cur().inputs['ghost_k'] = kz
+        S.assume(S.SymBool(kz >= 0))
+        ghost['kz'] = kz
+        return dict(aval=S.SymReal(Ssum(kz)), s=None, prob=None)
+
+    def element(L, it):
+        S.assume(S.SymBool(ghost['kz'] < n))
+        state['phase'] = 'back'
+        return (Atom(key(ghost['kz'])), S.SymReal(val(ghost['kz'])))
+    spec = CutSpec(inv=inv, havoc=havoc, element=element, exhausted=lambda L: S.SymBool(ghost['kz'] == n))
+    fcut, text, info = cut(qm.QMDPPolicy.action_value, {0: spec}, dump_dir=os.path.join(ROOT, 'evidence', 'extracted'))
+    r = fcut(policy, (Opaque('belief states'), Opaque('belief probabilities')), a)
+    S.check('U:QMDPPolicy.action_value:is-the-belief-expectation-of-the-MDP-action-values(any-support-size)', S.eq(r, S.SymReal(Ssum(n))))
+
+
 def tasks(tier, seed):
     T = []
     fam = P.family(tier, seed)
@@ -335,6 +381,7 @@ def tasks(tier, seed):
         for nd in (1, 2):
             T.append(Task('alpha-policy/%s/nd%d' % (sk.name, nd), h_alpha_policy, (sk, nd, seed), tier='B', max_paths=4000))
         T.append(Task('qmdp/%s' % sk.name, h_qmdp, (sk, seed), tier='B'))
+    T.append(Task('U/qmdp/action_value/abstract-belief', h_qmdp_action_value_U, (), tier='U', note='unbounded belief support, uninterpreted action-value table'))
     T.append(Task('rt/sandwich', rt_sandwich, (seed, 9 if tier == 'quick' else 60), tier='R', kind='rt', deadline_s=900))
     return T
 
@@ -349,3 +396,9 @@ MANIFEST_ENTRY = dict(
     note='Bounded skeletons/belief sets (tier B); lemmas L8/L9 trusted; expand_beliefs/_solve bounded run-time stand-in; revealing-observation equality only bracketed.',
 )
 END_MANIFEST_ENTRY = True
+
+
+SENTINELS = globals().get('SENTINELS', []) + [
+    Sentinel('U:qmdp-action-value-keeps-only-the-last-state', 'msdm.algorithms.qmdp', "aval += self.sa_values[s][a]*prob", "aval = self.sa_values[s][a]*prob",
+             ['U/qmdp/action_value/abstract-belief']),
+]
